@@ -178,3 +178,6 @@ Properties/C20.vos Properties/C20.vok Properties/C20.required_vos: Properties/C2
 AsFound/C08.vo AsFound/C08.glob AsFound/C08.v.beautified AsFound/C08.required_vo: AsFound/C08.v Model/Reader.vo Model/Compressor.vo Proofs/ReaderProof.vo Properties/C08.vo Properties/C15.vo
 AsFound/C08.vio: AsFound/C08.v Model/Reader.vio Model/Compressor.vio Proofs/ReaderProof.vio Properties/C08.vio Properties/C15.vio
 AsFound/C08.vos AsFound/C08.vok AsFound/C08.required_vos: AsFound/C08.v Model/Reader.vos Model/Compressor.vos Proofs/ReaderProof.vos Properties/C08.vos Properties/C15.vos
+AsFound/C07.vo AsFound/C07.glob AsFound/C07.v.beautified AsFound/C07.required_vo: AsFound/C07.v Model/Git.vo Properties/C07.vo
+AsFound/C07.vio: AsFound/C07.v Model/Git.vio Properties/C07.vio
+AsFound/C07.vos AsFound/C07.vok AsFound/C07.required_vos: AsFound/C07.v Model/Git.vos Properties/C07.vos
